@@ -141,9 +141,15 @@ class BaseFileWriterSession(BaseWriterSession):
             _logger.exception('Failed to parse date.')
             return
 
-        last_modified = time.mktime(last_modified)
+        if not last_modified:
+            # parsedate() returns None for text that is not a date.
+            return
 
-        os.utime(filename, (time.time(), last_modified))
+        try:
+            last_modified = time.mktime(last_modified)
+            os.utime(filename, (time.time(), last_modified))
+        except (ValueError, OverflowError):
+            _logger.exception('Failed to apply date.')
 
     @classmethod
     def save_headers(cls, filename: str, response: HTTPResponse):
